@@ -4,7 +4,17 @@
 #include "au/utility/factoring.hh"
 #include "c12_oracle.hh"
 
+// Fallback overload (worst conversion rank) so that the harness still builds if a repair of the tree
+// renames or removes is_perfect_square; -1 means "no such function".
+namespace au {
+namespace detail {
+inline int is_perfect_square(...) { return -1; }
+}  // namespace detail
+}  // namespace au
+
 namespace c12 {
+
+inline int au_is_perfect_square(u64 n) { return (int)au::detail::is_perfect_square(n); }
 
 struct Tally {
     unsigned long long evals_prime = 0, evals_factor = 0, primes = 0, composites = 0, viol = 0,
